@@ -339,3 +339,193 @@ def asa_frame(ctx, case=None):
 COVERS = ["atom-iteration", "selected-atom", "unselected-atom", "point-accepted", "point-rejected", "finished"]
 for _p in ("C13", "C08"):
     contract(_p, "mdtraj/geometry/src/sasa.cpp", "asa_frame", lang="c", replay="sasa", covers=COVERS, max_paths=400)(asa_frame)
+
+
+# =====================================================================================================
+# the frame driver `sasa`: asa_frame and generate_sphere_points are replaced by their contracts
+AREAF = z3.Function("AREAF", z3.IntSort(), z3.IntSort(), z3.RealSort())  # asa_frame's postcondition value for (frame, atom)
+GSUM = z3.Function("GSUM", z3.IntSort(), z3.IntSort(), z3.IntSort(), z3.RealSort())  # GSUM(i,g,j) = sum over selected atoms a<j of group g
+
+
+def sasa_driver(ctx, case=None):
+    """per frame i and group g:  out[i*n_groups+g] = out_before[...] + sum_{a : mapping[a]=g, mask[a]!=0} AREAF(i,a)
+    where AREAF(i,a) is the value asa_frame's contract gives for the frame at xyz + 3*n_atoms*i (a function of that frame's
+    coordinates, the radii and the point set only).  asa_frame is entered with ARBITRARY contents of the per-thread scratch
+    buffers (whatever earlier frames of whatever thread left there), which is what makes the statement schedule-independent:
+    `#pragma omp` is not interpreted, the sequential loop is the schedule in which one thread handles all frames."""
+    ex = ctx.ex
+    c = ctx.load_c("mdtraj/geometry/src/sasa.cpp", ["sasa"], **INC)
+    R = dict(xyz=Region("xyzlist"), radii=Region("atom_radii"), mapping=Region("atom_mapping", "int"), mask=Region("atom_selection_mask", "int"),
+             out=Region("out"))
+    for r in R.values():
+        r.mem0 = r.mem
+    out, mapping, mask = R["out"], R["mapping"], R["mask"]
+    nf, n, P, ng = ctx.int("n_frames"), ctx.int("n_atoms"), ctx.int("n_sphere_points"), ctx.int("n_groups")
+    ctx.assume(nf >= 0, n >= 1, P >= 1, ng >= 1)
+    nT, ngT = term(n), term(ng)
+    I, J, G, A0, C0 = ctx.int("I"), ctx.int("J"), ctx.int("G"), ctx.int("A0"), ctx.int("C0")  # frame, atom; probes: group, atom, cell
+    g = {"asa_calls": 0}
+
+    def map_ok(a):  # precondition: groups are 0..n_groups-1
+        m = z3.Select(mapping.mem0, a)
+        return z3.And(m >= 0, m < ngT)
+
+    def gsp_model(interp, args):
+        ptr, npts = args
+        ex.require("generate_sphere_points:gets-n_sphere_points", term(npts) == term(P))
+        ex.require("generate_sphere_points:fills-a-fresh-buffer", z3.BoolVal(isinstance(ptr, Ptr) and getattr(ptr.region, "alloc", None) is not None and ptr.region not in R.values()))
+        ptr.region.mem = z3.Array(core.fresh_name("golden_spiral"), z3.IntSort(), z3.RealSort())
+        ptr.region.spiral = term(npts)
+        g["sp_region"] = ptr.region
+        return None
+
+    def asa_model(interp, args):
+        frame, n_atoms, radii, sphere_points, nsp, nb, csp, msk, areas = args
+        g["asa_calls"] += 1
+        i = term(g["frame_index"])
+        # preconditions of the asa_frame contract, checked at the call site
+        ex.require("asa_frame:gets-this-frame's-coordinates(xyz+3*n_atoms*i)", z3.And(z3.BoolVal(frame.region is R["xyz"]), term(frame.off) == 3 * nT * i))
+        ex.require("asa_frame:gets-n_atoms,radii,mask", z3.And(term(n_atoms) == nT, z3.BoolVal(radii.region is R["radii"] and msk.region is mask), term(radii.off) == 0, term(msk.off) == 0))
+        ex.require("asa_frame:gets-the-generated-point-set", z3.And(z3.BoolVal(sphere_points.region is g.get("sp_region")), term(sphere_points.off) == 0, term(nsp) == term(P)))
+        scratch = [nb.region, csp.region, areas.region]
+        ex.require("asa_frame:scratch-buffers-are-this-call's-own-allocations(distinct,not-inputs,not-out)",
+                   z3.BoolVal(len({id(x) for x in scratch}) == 3 and all(getattr(x, "alloc", None) is not None and x not in R.values() and x is not g.get("sp_region") for x in scratch)))
+        # postcondition: selected atoms get AREAF(i, a) whatever the buffer held, unselected cells keep their value
+        old = areas.region.mem
+        new = z3.Array(core.fresh_name("areas_after"), z3.IntSort(), z3.RealSort())
+        areas.region.mem = new
+        for r in (nb.region, csp.region):
+            r.mem = z3.Array(core.fresh_name("scratch_after"), z3.IntSort(), z3.RealSort() if r.sort == "real" else z3.IntSort())
+        g["areas_post"] = lambda a: z3.Select(new, a) == z3.If(z3.Select(mask.mem0, a) != 0, AREAF(i, a), z3.Select(old, a))
+        g["buf_region"] = areas.region
+        return None
+
+    c.call_models["generate_sphere_points"] = gsp_model
+    c.call_models["asa_frame"] = asa_model
+
+    def buf_zero(a, mem):
+        return z3.Implies(z3.Select(mask.mem0, a) == 0, z3.Select(mem, a) == 0)
+
+    def untouched(cell, i, mem):
+        return z3.Implies(cell >= i * ngT, z3.Select(mem, cell) == z3.Select(out.mem0, cell))
+
+    # ---- loop 0: frames ---------------------------------------------------------------------------
+    def o_havoc(interp, env, gh):
+        interp.setvar(env, "i", I)
+        buf = interp.getvar(env, "outframebuffer").region
+        buf.mem = z3.Array(core.fresh_name("buffer@frame"), z3.IntSort(), z3.RealSort())
+        out.mem = z3.Array(core.fresh_name("out@frame"), z3.IntSort(), z3.RealSort())
+        out.writes.clear()
+        g["buf_mem_at_frame_start"], g["out_mem_at_frame_start"] = buf.mem, out.mem
+        g["frame_index"] = I
+        return [I.t >= 0]
+
+    def o_inv(interp, env, gh):
+        i = term(interp.getvar(env, "i"))
+        buf = interp.getvar(env, "outframebuffer").region
+        g.setdefault("frame_index", interp.getvar(env, "i"))
+        return [("0<=i<=n_frames", z3.And(i >= 0, i <= term(nf))),
+                ("buffer-cells-of-unselected-atoms-stay-zero[probe-atom]", buf_zero(A0.t, buf.mem)),
+                ("rows-of-later-frames-untouched[probe-cell]", untouched(C0.t, i, out.mem))]
+
+    def o_end(interp, env, gh):
+        ctx.cover("frame-iteration")
+        ex.require("asa_frame-called-exactly-once-per-frame", z3.BoolVal(g["asa_calls"] == 1))
+        for nm in ("xyz", "radii", "mapping", "mask"):
+            ex.require(f"frame:{nm}-not-written", z3.BoolVal(not R[nm].writes))
+        cell = I.t * ngT + G.t
+        ex.require("out[i][g]=out_before+sum-of-the-areas-of-the-selected-atoms-of-group-g-in-frame-i[probe-group]",
+                   z3.Implies(z3.And(G.t >= 0, G.t < ngT), z3.Select(out.mem, cell) == z3.Select(out.mem0, cell) + GSUM(I.t, G.t, nT)))
+
+    c.loop_specs[("sasa", 0)] = CLoopSpec(o_havoc, o_inv, at_end=o_end, exit_state=lambda interp, env, gh: interp.setvar(env, "i", SInt(term(nf))))
+
+    # ---- loop 1: accumulate atoms into groups -------------------------------------------------------
+    def i_havoc(interp, env, gh):
+        interp.setvar(env, "j", J)
+        out.mem = z3.Array(core.fresh_name("out@atom"), z3.IntSort(), z3.RealSort())
+        bufmem0 = g["buf_mem_at_frame_start"]
+        sel = z3.Select(mask.mem0, J.t) != 0
+        return [J.t >= 0, GSUM(I.t, G.t, 0) == 0,
+                z3.Implies(J.t < nT, map_ok(J.t)),  # precondition instance
+                g["areas_post"](J.t),  # asa_frame's postcondition at atom J
+                buf_zero(J.t, bufmem0),  # instance of the frame-loop invariant proved for an arbitrary atom
+                untouched(I.t * ngT + G.t, I.t, g["out_mem_at_frame_start"]),  # instance at the probe group's cell
+                GSUM(I.t, G.t, J.t + 1) == GSUM(I.t, G.t, J.t) + z3.If(z3.And(z3.Select(mapping.mem0, J.t) == G.t, sel), AREAF(I.t, J.t), 0)]
+
+    def i_inv(interp, env, gh):
+        j = term(interp.getvar(env, "j"))
+        cell = I.t * ngT + G.t
+        start = g["out_mem_at_frame_start"]
+        if gh.get("entry"):
+            ex.assume(GSUM(I.t, G.t, 0) == 0)
+            ex.assume(g["areas_post"](A0.t))
+        return [("0<=j<=n_atoms", z3.And(j >= 0, j <= nT)),
+                ("out[i][g]=value-at-frame-start+partial-sum[probe-group]", z3.Implies(z3.And(G.t >= 0, G.t < ngT), z3.Select(out.mem, cell) == z3.Select(start, cell) + GSUM(I.t, G.t, j))),
+                ("cells-outside-row-i-untouched[probe-cell]", z3.Implies(z3.Or(C0.t < I.t * ngT, C0.t >= (I.t + 1) * ngT), z3.Select(out.mem, C0.t) == z3.Select(start, C0.t)))]
+
+    def i_exit(interp, env, gh):
+        interp.setvar(env, "j", SInt(nT))
+        ex.assume(untouched(I.t * ngT + G.t, I.t, g["out_mem_at_frame_start"]))
+        ex.assume(untouched(C0.t, I.t, g["out_mem_at_frame_start"]))
+
+    c.loop_specs[("sasa", 1)] = CLoopSpec(i_havoc, i_inv, exit_state=i_exit)
+
+    o = ctx.ccall("sasa", nf, n, Ptr(R["xyz"], 0), Ptr(R["radii"], 0), P, Ptr(mapping, 0), Ptr(mask, 0), ng, Ptr(out, 0))
+    ctx.ensure("returns-normally", o.exc is None)
+    ctx.cover("finished")
+
+
+for _p in ("C13", "C08"):
+    contract(_p, "mdtraj/geometry/src/sasa.cpp", "sasa", lang="c", replay="sasa", covers=["frame-iteration", "finished"], max_paths=200)(sasa_driver)
+
+
+# =====================================================================================================
+# the point set: golden-section spiral, unit vectors (the precondition the asa_frame contract relies on)
+def golden_spiral(ctx, case=None):
+    ex = ctx.ex
+    c = ctx.load_c("mdtraj/geometry/src/sasa.cpp", ["generate_sphere_points"], **INC)
+    sp = Region("sphere_points")
+    sp.mem0 = sp.mem
+    n = ctx.int("n_points")
+    ctx.assume(n >= 1)
+    I = ctx.int("I")
+    nT = term(n)
+    from mdvc import npreal
+
+    def havoc(interp, env, gh):
+        interp.setvar(env, "i", I)
+        sp.writes.clear()
+        return [I.t >= 0]
+
+    def inv(interp, env, gh):
+        i = term(interp.getvar(env, "i"))
+        return [("0<=i<=n_points", z3.And(i >= 0, i <= nT))]
+
+    def at_end(interp, env, gh):
+        ctx.cover("point-iteration")
+        w = sp.writes
+        ex.require("exactly-the-three-cells-of-point-i-written", z3.BoolVal(len(w) == 3))
+        if len(w) != 3:
+            return
+        for k in range(3):
+            ex.require(f"cell[{k}]-is-3*i+{k}", w[k][0] == 3 * I.t + k)
+        x, y, z = (w[k][1] for k in range(3))
+        iR, nR = z3.ToReal(I.t), z3.ToReal(nT)
+        ex.require("y_i=(2i+1)/n-1(points-equidistant-in-height)", y * nR == 2 * iR + 1 - nR)
+        ex.require("-1<y_i<1", z3.And(y > -1, y < 1))
+        inc = rterm(interp.getvar(env, "inc"))
+        golden = z3.RealVal("3.14159265358979323846") * (3 - z3.RealVal("2.23606797749978969641"))
+        ex.require("increment=pi*(3-sqrt5)(golden-angle,to-single-precision)", z3.And(inc - golden <= z3.RealVal("1e-6"), golden - inc <= z3.RealVal("1e-6")))
+        phi = iR * inc
+        rr = npreal.SQRT(1 - y * y)
+        ex.require("x_i=cos(i*inc)*sqrt(1-y^2)", x == npreal.COS(phi) * rr)
+        ex.require("z_i=sin(i*inc)*sqrt(1-y^2)", z == npreal.SIN(phi) * rr)
+        ex.require("unit-vector:x^2+y^2+z^2=1", x * x + y * y + z * z == 1)
+
+    c.loop_specs[("generate_sphere_points", 0)] = CLoopSpec(havoc, inv, at_end=at_end, exit_state=lambda interp, env, gh: interp.setvar(env, "i", SInt(nT)))
+    o = ctx.ccall("generate_sphere_points", Ptr(sp, 0), n)
+    ctx.ensure("returns-normally", o.exc is None)
+    ctx.cover("finished")
+
+
+contract("C13", "mdtraj/geometry/src/sasa.cpp", "generate_sphere_points", lang="c", replay="sasa", covers=["point-iteration", "finished"], max_paths=50)(golden_spiral)
